@@ -31,7 +31,7 @@ META = {
                   "analysis for the symplectic option, C02 for RK). Order of the returned rows depends on completion order; the "
                   "property speaks of the set. Trusted: numpy.array_split yields a partition, ThreadPoolExecutor runs every "
                   "submitted chunk exactly once, numba prange semantics (A5). _poincare_step is checked for max_steps = 2 "
-                  "(symbolic values).",
+                  "(symbolic values). The map service is checked over request histories of (degree of the shared manifold, section coordinate) (shared with C20).",
     "technique": "z3 path VCs on the real predicates, exact identities, AST frame extraction + recorded-callee execution for pointwise-ness, exhaustive success patterns",
 }
 
